@@ -49,6 +49,12 @@ def step (op implObs : String) : String × List String × List String :=
   let single := kvStr toks "mode" = "single"
   let files0 := parseFiles (kvStr toks "files")
   let files0 := if single then files0.take 1 else files0
+  -- a symbolic link to a file of the tree counts as a file with the target's content
+  let linked : List F := if single then [] else (commaList (kvStr toks "links")).filterMap fun t =>
+    match t.splitOn ">" with
+    | [r, tgt] => (files0.find? (·.rel = tgt)).map fun f => { rel := r, size := f.size }
+    | _ => none
+  let files0 := files0 ++ linked
   let files := files0.foldl (fun acc f => insertSorted f acc) []
   let total := (files.map (·.size)).sum
   if total = 0 ∨ pl = 0 then
@@ -65,12 +71,13 @@ def step (op implObs : String) : String × List String × List String :=
     let viol :=
       if itoks.head? = some "ok" ∧ kvNat itoks "set" = kvNat itoks "np" ∧ kvNat itoks "np" = np ∧ kvStr itoks "table" = "1" then []
       else
-        let kind := if ranges.any (fun (lo, hi) => lo < hi) then "padding-named-file" else "other"
+        let kind := if ranges.any (fun (lo, hi) => lo < hi) then "padding-named-file" else if !linked.isEmpty then "symlink" else "other"
         [s!"C02 create-verify-incomplete kind={kind}"]
     let tags := (if files.length ≥ 2 then ["nontrivial"] else []) ++
       (if files.any (fun f => f.size = 0) then ["zero-len-file"] else []) ++
       (if files.any (fun f => f.size % pl = 0 ∧ f.size > 0) then ["file-ends-on-piece-boundary"] else []) ++
-      (if single then ["single-file"] else []) ++ (if npad > 0 then ["padding-named-file"] else [])
+      (if single then ["single-file"] else []) ++ (if npad > 0 then ["padding-named-file"] else []) ++
+      (if !linked.isEmpty then ["symlink"] else [])
     (mobs, viol, tags)
 
 def suite : Suite where
